@@ -61,6 +61,9 @@ class SpyCassette(TapeCassette):
 
     def abort_recording(self, recording=None):
         self._add('abort', id(recording), getattr(recording, 'id', None))
+        if getattr(self, 'fail_aborts', False):
+            # a cassette that releases a per-recording resource on abort (a session, a lock) and cannot reach it right now
+            raise InjectedSaveFailure('injected: storage fails on abort')
         return self.inner.abort_recording(recording)
 
     def get_recording(self, recording_id):
